@@ -37,7 +37,25 @@ var jsonEncFields = map[string]fieldSpec{
 	"openNamespaces": {"openNs", "int"},
 }
 
+var stdCalls = map[string]shim{
+	"bytes.IndexByte":       {kind: "builtin", f: "bytes.IndexByte", res: []string{"int"}},
+	"strings.IndexByte":     {kind: "builtin", f: "strings.IndexByte", res: []string{"int"}},
+	"strings.LastIndexByte": {kind: "builtin", f: "strings.LastIndexByte", res: []string{"int"}},
+}
+
+func probeFuncs() []transFunc {
+	var out []transFunc
+	for _, n := range []string{"probeU32", "probeU8", "probeU64", "probeInt", "probeI64", "probeDiv", "probeDivU", "probeConv",
+		"probeSlice", "probeSliceLo", "probeSliceHi", "probeIndex", "probeShort", "probeSwap", "probeLoop", "probeSwitch",
+		"probeRange", "probeMinMax", "probeNamed", "probeAppend", "probeIndexByte", "probeShadow", "probeWhile"} {
+		out = append(out, transFunc{file: "@verif/harness/cmd/zvh/trans_probe.go", name: n, lean: n, calls: stdCalls})
+	}
+	return out
+}
+
 var transSpecs = []transSpec{
+	// the CTR self-test: probe functions of the harness, translated like any whitelisted function
+	{table: "TransProbe", funcs: probeFuncs()},
 	{table: "TransJsonSep", funcs: []transFunc{
 		{file: "zapcore/json_encoder.go", recv: "jsonEncoder", name: "addElementSeparator", lean: "addElementSeparator",
 			fields: jsonEncFields, calls: bufferCalls},
